@@ -21,21 +21,22 @@ theorem optimumPolingPeriod_of_ne {z : ℝ} (hz : z ≠ 0) (cost : Bool → ℝ 
     optimumPolingPeriod z cost L =
       match NM1D.run (cost (computeSign z)) |2 * π / z| (|2 * π / z| + 1e-6) 1000 minPositive L 1e-12 with
       | .ok period =>
-        if L < period ∨ period < minPositive then
+        if L * (1 - 1e-9) ≤ period ∨ L < period ∨ period < minPositive then
           .err "Could not determine poling period from specified values"
         else .ok (Period.finite (signMul (computeSign z) period))
       | .err e => .err e
       | .panic s => .panic s := by
   have h : ¬ (¬ (z < 0) ∧ ¬ (0 < z)) := by
     intro h; exact hz (le_antisymm (not_lt.mp h.2) (not_lt.mp h.1))
-  simp only [optimumPolingPeriod, lit_zero, h, if_false, twoPi_eq, tabs]
+  simp only [optimumPolingPeriod, lit_zero, lit_one, h, if_false, twoPi_eq, tabs]
   cases NM1D.run (cost (computeSign z)) |2 * π / z| (|2 * π / z| + 1e-6) 1000 minPositive L 1e-12 <;> rfl
 
 /-- an `Ok(Λ)` of `optimum_poling_period` comes from an optimiser result inside `[MIN_POSITIVE, L]` -/
 theorem optimumPolingPeriod_ok {z : ℝ} {cost : Bool → ℝ → Cost ℝ} {L v : ℝ}
     (h : optimumPolingPeriod z cost L = .ok (Period.finite v)) :
     z ≠ 0 ∧ ∃ p, NM1D.run (cost (computeSign z)) |2 * π / z| (|2 * π / z| + 1e-6) 1000
-        minPositive L 1e-12 = .ok p ∧ minPositive ≤ p ∧ p ≤ L ∧ v = signMul (computeSign z) p := by
+        minPositive L 1e-12 = .ok p ∧ minPositive ≤ p ∧ p ≤ L ∧ p < L * (1 - 1e-9) ∧
+        v = signMul (computeSign z) p := by
   by_cases hz : z = 0
   · subst hz
     simp [optimumPolingPeriod, lit_zero] at h
@@ -47,9 +48,9 @@ theorem optimumPolingPeriod_ok {z : ℝ} {cost : Bool → ℝ → Cost ℝ} {L v
       rw [hr] at h
       simp only at h
       split_ifs at h with hc
-      rw [not_or, not_lt, not_lt] at hc
+      rw [not_or, not_or, not_le, not_lt, not_lt] at hc
       simp only [Outcome.ok.injEq, Period.finite.injEq] at h
-      exact ⟨p, rfl, hc.2, hc.1, h.symm⟩
+      exact ⟨p, rfl, hc.2.2, hc.2.1, hc.1, h.symm⟩
     | err e => rw [hr] at h; simp at h
     | panic s => rw [hr] at h; simp at h
 
